@@ -7,6 +7,8 @@ The tree is fresh (no node carries a shift). `ops` (default `L`) is a history on
 * `D<addr>`      — detach the node at `<addr>` (`i.j.k`, child indices from the root);
 * `F<addr>:<sh>` — insert the fresh subtree `<sh>` as FIRST child of the node at `<addr>` (`r` = root);
 * `E<addr>:<sh>` — append the fresh subtree `<sh>` as LAST child;
+* `W`            — a fresh node becomes the new root above the old root;
+* `I<addr>`      — a fresh node is inserted between the node at `<addr>` and all its children;
 * `R<addr>`      — reverse the children of the node at `<addr>`;
 * `M<from>><to>` — detach the node at `<from>` and re-attach it as last child of the node at `<to>`
                    (`<to>` is an address in the tree after the detachment);
@@ -62,6 +64,10 @@ def splitLast : List Nat → Option (List Nat × Nat)
 def parseOp (s : String) : Option Op :=
   match s.toList with
   | ['L'] => some .layout
+  | ['W'] => some (.edit ST.wrap)
+  | 'I' :: rest => do
+    let addr ← parseAddr (String.ofList rest)
+    pure (.edit (ST.interpose addr))
   | 'D' :: rest => do
     let addr ← parseAddr (String.ofList rest)
     let (p, i) ← splitLast addr
